@@ -945,6 +945,123 @@ class Region:
         self.inserted_spans = []
 
 
+MOD_FILES = {'loop_logic': 'src/loop_logic.rs', 'sys': 'src/sys.rs', 'sources': 'src/sources/mod.rs', 'timer': 'src/sources/timer.rs',
+             'channel': 'src/sources/channel.rs', 'error': 'src/error.rs', 'futures': 'src/sources/futures.rs',
+             'generic': 'src/sources/generic.rs', 'io': 'src/io.rs', 'list': 'src/list.rs', 'ping': 'src/sources/ping.rs',
+             'eventfd': 'src/sources/ping/eventfd.rs', 'signals': 'src/sources/signals.rs', 'stream': 'src/sources/stream.rs',
+             'token': 'src/token.rs', 'transient': 'src/sources/transient.rs'}
+MOD_LINE = re.compile(r'^\s*pub(?:\(crate\))?\s+mod\s+(\w+)\s*\{\s*$')
+
+
+def std_use_leaves(rel):
+    """(path, name) for every leaf of the top-level `use std::..` / `use core::..` items of the real file (cfg-filtered by the
+    lexer's item splitter is not needed: a std path that does not exist on this target would be a compile error anyway)."""
+    try:
+        src = open(os.path.join(REPO, rel), encoding='utf-8').read()
+    except OSError:
+        return []
+    toks = sig(lex(src))
+    m_ = match_brackets(toks)
+    out = []
+    depth = 0
+    i = 0
+    n = len(toks)
+
+    def tree(k, prefix):
+        # parses a use-tree starting at toks[k]; returns index after it
+        path = list(prefix)
+        while k < n:
+            tx = toks[k].text
+            if tx == '{':
+                k += 1
+                while k < n and toks[k].text != '}':
+                    k = tree(k, path)
+                    if k < n and toks[k].text == ',':
+                        k += 1
+                return k + 1
+            if tx == '*':
+                return k + 1        # globs are not copied
+            if tx == 'self':
+                name = path[-1] if path else None
+                k += 1
+                if k < n and toks[k].text == 'as':
+                    name = toks[k + 1].text
+                    k += 2
+                if name:
+                    out.append(('::'.join(path), name, '::'.join(path) + (' as ' + name if name != path[-1] else '')))
+                return k
+            path.append(tx)
+            k += 1
+            if k < n and toks[k].text == '::':
+                k += 1
+                continue
+            name = path[-1]
+            stmt = '::'.join(path)
+            if k < n and toks[k].text == 'as':
+                name = toks[k + 1].text
+                stmt += ' as ' + name
+                k += 2
+            out.append(('::'.join(path), name, stmt))
+            return k
+        return k
+
+    while i < n:
+        tx = toks[i].text
+        if tx in ('{', '(', '['):
+            depth += 1
+        elif tx in ('}', ')', ']'):
+            depth -= 1
+        elif depth == 0 and tx == 'use' and i + 1 < n and toks[i + 1].text in ('std', 'core', 'alloc'):
+            # attributes right before the item: `#[cfg(..)]` that is false on the verified configuration => skip the item
+            k = i - 1
+            if k >= 0 and toks[k].text == ')' :
+                pass
+            live = True
+            while k >= 0 and toks[k].text == ']':
+                o = m_[k]
+                if o >= 1 and toks[o - 1].text == '#':
+                    inner = [t.text for t in toks[o + 1:k]]
+                    if inner[:2] == ['cfg', '('] and inner[-1] == ')':
+                        try:
+                            if not eval_cfg_tokens(inner[2:-1]):
+                                live = False
+                        except Exception:
+                            live = False
+                    k = o - 2
+                else:
+                    break
+            if live:
+                i = tree(i + 1, [])
+            else:
+                while i < n and toks[i].text != ';':
+                    i += 1
+            continue
+        i += 1
+    return out
+
+
+def auto_uses(modname, following_lines):
+    """Rule D7: the `use` lines of a miniature module are hand-written copies of the real file's; an std import that the
+    real file has (or gains) and the copy lacks is added here, so that an edit which merely starts using another std
+    item does not make the unit undecided. Only names the hand-written lines do not already bring in are added."""
+    rel = MOD_FILES.get(modname)
+    if rel is None:
+        return []
+    taken = set()
+    for l in following_lines:
+        if MOD_LINE.match(l) or l.strip().startswith('//@ include') or l.strip().startswith('} //'):
+            break
+        if re.match(r'^\s*(#\[[^\]]*\]\s*)?(pub(\([a-z]+\))?\s+)?use\s', l):
+            taken.update(re.findall(r'[A-Za-z_][A-Za-z0-9_]*', l))
+    res = []
+    for path, name, stmt in std_use_leaves(rel):
+        if name in taken or name in ('std', 'core', 'alloc'):
+            continue
+        taken.add(name)
+        res.append('#[allow(unused_imports)] use %s; /*D7*/' % stmt)
+    return res
+
+
 def expand_fragment(frag_name, text, out_lines, regions, log, vacuity=False):
     """Expand one fragment template into out_lines; record regions (line ranges)."""
     lines = preprocess(text.split('\n'), frag_name)
@@ -975,6 +1092,9 @@ def expand_fragment(frag_name, text, out_lines, regions, log, vacuity=False):
                 start_region(frag_name + ':scaffold', [], 'scaffold')
             out_lines.append(line)
             i += 1
+            mm_ = MOD_LINE.match(line)
+            if mm_ and frag_name.startswith('m_'):
+                out_lines.extend(auto_uses(mm_.group(1), lines[i:]))
             continue
         d = md.group(1).strip()
         i += 1
